@@ -28,7 +28,7 @@ type c18 struct{}
 func (*c18) ID() string    { return "C18" }
 func (*c18) Level() string { return "exploration" }
 func (*c18) Rule() string {
-	return "histories of op/3 calls over 14 names (',' '|' [] {} foo bar + - :- = is mod =>> \\+) and 13 other operator arguments " +
+	return "histories of op/3 calls over 15 names (',' '|' [] {} foo bar + - :- = is mod =>> \\+ and the NUL atom) and 13 other operator arguments " +
 		"(lists with an unbound / non-atom / ','/'|'/{} member, partial and improper lists, [[]], a number, a compound, a variable) x " +
 		"7 specifiers + 3 non-specifiers (foo, 1, _) x priorities {-1,0,1,200,700,1000,1001,1200,1201,foo,_}: every history of length 1 " +
 		"(exhaustive); histories of length 2 whose calls address the same name (thorough: every well-formed first call [7 specifiers x priorities 0..1200 of the pool] x every second call, exhaustive; quick: seeded sample) " +
@@ -319,7 +319,8 @@ func c18IsSpec(s string) bool { _, ok := c18Class[s]; return ok }
 // ---------------------------------------------------------------------------------------------------
 // Generation.
 
-var c18Names = []string{",", "|", "[]", "{}", "foo", "bar", "+", "-", ":-", "=", "is", "mod", "=>>", "\\+"}
+// (the last name is the one-character NUL atom: a legitimate atom whose internal representation may coincide with "no atom")
+var c18Names = []string{",", "|", "[]", "{}", "foo", "bar", "+", "-", ":-", "=", "is", "mod", "=>>", "\\+", "\x00"}
 var c18SpecPool = []*term.Term{term.A("fx"), term.A("fy"), term.A("xf"), term.A("yf"), term.A("xfx"), term.A("xfy"), term.A("yfx"),
 	term.A("foo"), term.I(1), nil /* fresh variable */}
 var c18PrioPool = []*term.Term{term.I(-1), term.I(0), term.I(1), term.I(200), term.I(700), term.I(1000), term.I(1001), term.I(1200), term.I(1201),
@@ -513,7 +514,12 @@ func c18Touched(calls []*term.Term) []string {
 func (g *c18Gen) item(family string, calls []*term.Term) *Item {
 	m := &c18Meta{Family: family, Calls: calls}
 	touched := c18Touched(calls)
-	probed := touched
+	var probed []string
+	for _, n := range touched {
+		if n != "\x00" { // not written into query texts
+			probed = append(probed, n)
+		}
+	}
 	if len(probed) > 3 {
 		probed = probed[:3]
 	}
